@@ -94,6 +94,13 @@ func (s PageState) Equal(other PageState) bool {
 type PageBreak struct {
 	Break string
 	Page  pr.Page
+	// PageChanged is true when [Page] was set by a change of named page,
+	// in which case an empty [Page] means the unnamed page (and not "no information").
+	PageChanged bool
+}
+
+func (pb PageBreak) String() string {
+	return fmt.Sprintf("{%s %s %t}", pb.Break, pb.Page, pb.PageChanged)
 }
 
 type PageMaker struct {
